@@ -24,6 +24,7 @@ pub(crate) struct UdpState {
     pub rng: Rng,
     pub last_due: u64,
     pub bound_seq: u64,
+    pub reuse: bool,
 }
 
 pub(crate) type UdpRef = Arc<Mutex<UdpState>>;
@@ -135,10 +136,37 @@ pub(crate) fn deliver(w: &mut World, d: Dgram, wakers: &mut Vec<Waker>) {
 }
 
 pub(crate) fn bind(addr: SocketAddr, proxy: bool, connected: Option<SocketAddr>) -> io::Result<UdpRef> {
+    bind_opt(addr, proxy, connected, false)
+}
+
+pub(crate) fn bind_opt(addr: SocketAddr, proxy: bool, connected: Option<SocketAddr>, reuse: bool) -> io::Result<UdpRef> {
     let mut w = world();
     let mut addr = addr;
     if addr.port() == 0 {
-        addr.set_port(w.fresh_port());
+        // Linux chooses the port of a UDP socket among those without a conflicting holder - and two sockets that both have
+        // SO_REUSEADDR do not conflict (udp_lib_lport_inuse): the automatic choice can land on a port another such socket
+        // of this host holds. How often is a matter of load; here it is a seeded event (plan parameter udp_port_reuse).
+        let mut taken = None;
+        let p = w.cfg.udp_port_reuse;
+        if reuse && p > 0 && w.sched_rng.chance(p) {
+            let mut cands: Vec<(u64, u16)> = Vec::new();
+            for (_, s) in w.udp.iter() {
+                let g = s.lock().unwrap();
+                if g.proxy == proxy && g.reuse && !g.closed && g.local.is_ipv4() == addr.is_ipv4() && g.local.port() >= 32768 {   // (the ephemeral range)
+                    cands.push((g.bound_seq, g.local.port()));
+                }
+            }
+            cands.sort();
+            if !cands.is_empty() {
+                let k = w.sched_rng.below(cands.len() as u64) as usize;
+                taken = Some(cands[k].1);
+                w.count("udp_port_shared");
+            }
+        }
+        addr.set_port(match taken {
+            Some(p) => p,
+            None => w.fresh_port(),
+        });
     }
     let id = w.fresh_id();
     let seed = w.cfg.seed;
@@ -156,6 +184,7 @@ pub(crate) fn bind(addr: SocketAddr, proxy: bool, connected: Option<SocketAddr>)
         rng: Rng::derive(seed, &label),
         last_due: 0,
         bound_seq,
+        reuse,
     }));
     w.udp.insert(id, st.clone());
     w.log("udp_bind", id, 0, format!("{}{} c={:?}", if proxy { "proxy " } else { "" }, addr, connected));
